@@ -188,7 +188,7 @@ def extend_targeted(s, info, r):
                         cands.append(((p + off, y, out) in done, a))
         yes = [a for d, a in cands if d]
         no = [a for d, a in cands if not d]
-        for pick in ([r.choice(yes)] if yes else []) + ([r.choice(no)] if no and r.random() < 0.4 else []):
+        for pick in ([r.choice(yes)] if yes else []) + ([r.choice(no)] if no and r.random() < 0.6 else []):
             opt.setdefault((pick["task"], pick["out"]), False)
             sec["lines"].append({"lhs": pick, "rhs": x})
             added += 1
@@ -347,7 +347,7 @@ def reload_oracle(scn, run):
             pending_end = (cur, e)
             cur = None
         elif k == "tick_end" and pending_end is not None:
-            fails += _check_iteration_end(pending_end[0], e, n_reloads - 1)
+            fails += _check_iteration_end(pending_end[0], pending_end[1], e, n_reloads - 1)
             pending_end = None
     for o in rops:
         if o["tick"] in ticks_done and n_reloads == 0:
@@ -358,7 +358,7 @@ def reload_oracle(scn, run):
         fails.append((None, "scheduler run raised: " + run["meta"]["error"]))
     base = run.get("base")
     if base is not None and not base.get("error") and rops and all(o["kind"] == "same" for o in rops) \
-            and not any(c for c, _ in fails):
+            and len(rops) == len(scn.get("ops", [])) and not any(c for c, _ in fails):
         if base["stop"] == "AUTOMATIC" and run["meta"]["stop"] != "AUTOMATIC":
             fails.append((None, f"without the reload(s) of the unchanged definition the run completes and shuts down; "
                                 f"with them it ends as {run['meta']['stop']}"))
@@ -446,11 +446,12 @@ def _check_reload(scn, rdef, b, a, done, ri):
     return fails
 
 
-def _check_iteration_end(b, end, ri):
+def _check_iteration_end(b, a, end, ri):
     fails = []
     w = f"reload {ri}, end of the main-loop iteration (tick {end['n']}): "
     eid = {tuple(t["id"]): t for t in end["snap"]["tasks"]}
     new = set(b["new_names"])
+    after = {tuple(t["id"]): t for t in a["tasks"]}
     for t in b["tasks"]:
         if not t["queued"] or t["id"][1] not in new:
             continue
@@ -458,9 +459,10 @@ def _check_iteration_end(b, end, ri):
         if u is None or u["status"] != "waiting" or u["queued"] or u["runahead"] or u["manual"]:
             continue
         if u["held"]:
-            fails.append((KNOWN_QUEUED, w + f"{_fmt(t)} was queued (and held) before the reload; it is still waiting and held "
-                                            f"but no longer queued"))
-        elif all(u["sat"]) and t["submit_num"] == 0:
+            fails.append((KNOWN_QUEUED, w + f"{_fmt(t)} was queued before the reload; it is still waiting, is held, "
+                                            f"and is no longer queued"))
+        elif tuple(t["id"]) in after and all(after[tuple(t["id"])]["sat"]) and all(u["sat"]) and t["submit_num"] == 0:
+            # (ready right after the reload, i.e. when the main loop's re-queue pass looked at it)
             fails.append((None, w + f"{_fmt(t)} was queued before the reload; it is waiting with all prerequisites satisfied "
                                     f"but not queued"))
     return fails
@@ -483,8 +485,9 @@ class ReloadStream(SchedStream):
                       f"when the command is issued: new dependencies of tasks waiting in the pool on outputs already / not "
                       f"yet recorded in task_outputs, removal of the definition of a pooled task preferring held+started, "
                       f"held, queued, active instances), with probability 0.5 a hold point set before and released after the reload; a second reload "
-                      f"(possibly of another kind, e.g. back to the original) with probability {p_second}; non-trivial = "
-                      f"a reload that ran on a non-empty pool")
+                      f"(possibly of another kind, e.g. back to the original) with probability {p_second}; a quarter of the base scenarios "
+                      f"without hold/release commands (those with unchanged-definition reloads are also run without the "
+                      f"reload and must end the same way); non-trivial = a reload that ran on a non-empty pool")
 
     def corpus(self):
         """Witnesses of the two open findings."""
@@ -514,6 +517,10 @@ class ReloadStream(SchedStream):
         while len(out) < n:
             base = scen.gen_scenario(r, self.feat)
             base.pop("baseline", None)
+            base["max_ticks"] = 45
+            plain = r.random() < 0.25
+            if plain:
+                base["ops"] = []      # no hold / release commands: the outcome of the run does not depend on timing
             for k in r.sample(range(0, 9), 3):
                 s = _clone(base)
                 kind = r.choice(self.kinds)
@@ -521,7 +528,7 @@ class ReloadStream(SchedStream):
                 adapt = r.randrange(1 << 30) if kind != "same" and r.random() < 0.6 else None
                 cur = _clone(base) if adapt is not None else mut[kind](_clone(base), r)
                 add_reload(s, k, kind, cur, adapt)
-                if r.random() < 0.5:
+                if not plain and r.random() < 0.5:
                     # keep part of the pool waiting (held) across the reload while earlier cycles finish
                     s["ops"].append({"tick": r.randint(0, max(0, k - 1)), "cmd": "set_hold_point",
                                      "args": {"point": str(r.randint(base["icp"], max(base["icp"], base["fcp"] - 1)))}})
@@ -562,7 +569,7 @@ class ReloadStream(SchedStream):
         for c in cases:
             r = run(c)
             r["trace"] = [_slim(e) for e in r["trace"] if e["e"] in KEEP]
-            if all(o["kind"] == "same" for o in c["ops"] if o["cmd"] == "x_reload"):
+            if all(o["cmd"] == "x_reload" and o["kind"] == "same" for o in c["ops"]):
                 c0 = _clone(c)
                 c0["ops"] = [o for o in c0["ops"] if o["cmd"] != "x_reload"]
                 r0 = run(c0)
@@ -633,13 +640,43 @@ def _slim(e):
 
 
 STREAMS = [
-    ReloadStream("reload-cmds", {"hold": True, "queues": True, "abs": True}, 15, 450),
-    ReloadStream("reload-retries", {"hold": True, "queues": True, "retries": True}, 12, 360),
+    ReloadStream("reload-cmds", {"hold": True, "queues": True, "abs": True}, 12, 330),
+    ReloadStream("reload-retries", {"hold": True, "queues": True, "retries": True}, 9, 270),
 ]
 
 META = {
-    "level_text": "(filled in below)",
-    "level_note": "",
-    "technique": "Coq proof over an executable model of the pool reload + in-Coq comparison with real reloads + snapshot oracle",
+    "level_text": (
+        "Coq theorems over Model/Reload.v (TaskPool._reload_taskdefs, TaskProxy.copy_to_reload_successor, "
+        "TaskPool.check_task_output, queue_if_ready / the main loop's re-queue pass), for ALL pools, old/new definitions and "
+        "task_outputs contents: the pool after a reload is, in the same order and with unique ids, exactly the tasks that are "
+        "not (orphaned and (waiting or held or queued)); every task that stays keeps status, flow numbers, submit number, "
+        "held / runahead / manual flags and completed outputs, and nothing else appears; a still-defined task is never "
+        "dropped; a reloaded task has exactly the prerequisite keys of the new definition; a key that existed before keeps "
+        "its satisfaction; a new key is satisfied only if task_outputs records that output for overlapping flow numbers "
+        "(iff when one row overlaps; never for a task in no flow); reloading an unchanged definition is the identity up to "
+        "the queued flag; reloading twice equals reloading once up to the prerequisites of orphans kept by the first reload "
+        "(idempotent when none is kept). Two clauses of the property text are REFUTED in the faithful model and "
+        "reproduced on the real scheduler (open findings, fixes proposed): 'dropped only if not started' "
+        "(c27_orphans_refuted: a held submitted/running orphan is dropped; proved when no orphan is held) and 'queued flag "
+        "preserved' (c27_queued_refuted: TaskPool.reload clears is_queued; c27_requeue_restores: the main loop re-queues "
+        "ready un-held tasks in the same iteration; c27_held_queued_lost_refuted: a held queued task stays un-queued). "
+        "Tie: every real reload of the generated runs (unchanged / extended / shrunk / targeted definitions, 1-2 reloads per "
+        "run, at main-loop iterations 0..8) is recomputed by the model from (pool before, name lists + new prerequisite "
+        "keys, task_outputs rows) and compared inside Coq with the real pool right after TaskPool.reload; every "
+        "check_task_output call and the following queue_if_ready calls are compared too. Oracle (implementation only): "
+        "the clauses on the before/after/end-of-iteration snapshots, prerequisite keys against the generator's own "
+        "instance graph of the new definition, new prerequisites against the outputs completed in the trace and the "
+        "task_outputs rows, no exception in the command or the rest of the run, and an unchanged-definition reload does "
+        "not stop a run that otherwise completes."),
+    "level_note": (
+        "Model/Reload.v is a hand model; the new definition enters as data (task name lists, prerequisite keys of a fresh "
+        "TaskState per pooled instance), satisfaction values as booleans (the 'satisfied naturally / from database / forced' "
+        "strings are not distinguished). Not modelled (oracle / run-to-completion only): xtriggers, runtime settings of the "
+        "new definition, the data store, try timers, is_late / clock-expire times, the queue order (a reload re-queues in "
+        "pool order: reported with the queued finding), the flush of preparing tasks before the reload, compute_runahead "
+        "after it. Trusted: Coq kernel+VM, vp/sched/driver.py (fake process pool), vp/sched/reload_ext.py. Two open "
+        "findings are reported as KNOWN-FINDING and do not fail the check."),
+    "technique": ("Coq proof (all pools/definitions/DB contents; refutation witnesses) over an executable model of the pool "
+                  "reload + in-Coq comparison with real reloads of generated scheduler runs + snapshot oracle"),
     "design_ref": "5/C27",
 }
